@@ -141,4 +141,30 @@ Section StreamFetch.
     let '(lines, tail) := split b in
     let '(r, w) := steps_fetch e k (init_stream L llen PS init_ps lines tail script) (tee0 tf) in
     match w with TOpen n len => write_tmp f1 n (take len b) | TNone => drop_temp f1 tf end.
+
+  (* ---------------------------------------------------------------- the whole network part of locate_symbols
+     `for url in &self.urls { match fetch_symbol_file(..).await { Ok(symbols) => return Ok(..), Err(e) => {} } }`
+     with the streaming download inside: what each server does is its response — no head at all (send() fails),
+     or a head with a status and a body script *)
+  Inductive resp :=
+  | RNoHead
+  | RHead (status : Z) (b : bytes) (script : list sev).
+
+  Fixpoint lookup_stream (f : fs) (ss : list (server * resp)) : fs * option (T * bytes) * list Z :=
+    match ss with
+    | [] => (f, None, [])
+    | (s, r) :: rest =>
+        let skip (g : fs) := let '(g', res, lg) := lookup_stream g rest in (g', res, s_id s :: lg) in
+        match r with
+        | RNoHead => skip f
+        | RHead code b script =>
+            if 400 <=? code then skip f
+            else
+              let '(f1, res) := stream_fetch (s_env s) (s_url s) f b script in
+              match res with
+              | FOk t => (f1, Some (t, s_url s), [s_id s])
+              | _ => skip f1
+              end
+        end
+    end.
 End StreamFetch.
